@@ -1192,6 +1192,14 @@ class Fold:
                     and self.f.decls[rn["decl"]].get("init") is not None:
                 # a const local container initialised from a literal list: iterate the list
                 rn = strip_(unwrap(self.f.decls[rn["decl"]]["init"]))
+            if rn is not None and rn.get("k") == "ref" and rn.get("dk") == "global" and (rn.get("type") or "").lstrip().startswith("const "):
+                # a namespace-scope const container initialised from a literal list
+                root_ = getattr(self, "root", None) or self.f
+                gl = getattr(getattr(root_, "facts", None), "globals", {}).get(rn.get("qname"))
+                if gl and gl.get("const") and gl.get("init") is not None:
+                    rn = strip_(unwrap(gl["init"]))
+            while rn is not None and rn.get("k") == "initlist" and len(rn.get("args", [])) == 1 and (strip_(unwrap(rn["args"][0])) or {}).get("k") == "initlist":
+                rn = strip_(unwrap(rn["args"][0]))          # std::array<T, N>{{...}}: the aggregate's only member is the array
             if rn is not None and rn.get("k") == "initlist" and 1 <= len(rn.get("args", [])) <= 256 and all(lit_value(a) is not None or unwrap(a).get("k") == "str" or
                                                                                                          (strip_(unwrap(a)) or {}).get("k") == "str" for a in rn["args"]) \
                     and s["var"]["decl"] not in self.assigned_in(s["body"]):
